@@ -55,6 +55,9 @@ func NewParser(srcPath, dstPath string) (*Parser, error) {
 		Mode:       parserLoadMode,
 		BuildFlags: []string{"-tags", buildTag},
 		Fset:       fileSet,
+		// The go command has to run where the setup file lives: started from a directory
+		// outside the file's module it silently loads the file alone, without its siblings.
+		Dir: filepath.Dir(srcPath),
 		ParseFile: func(fset *token.FileSet, filename string, src []byte) (*ast.File, error) {
 			stat, err := os.Stat(filename)
 			if err != nil {
@@ -90,7 +93,12 @@ func NewParser(srcPath, dstPath string) (*Parser, error) {
 			}
 		}
 	}
-	pkgs, err := packages.Load(cfg, "file="+srcPath)
+	query := srcPath
+	if abs, err := filepath.Abs(srcPath); err == nil {
+		// (cfg.Dir is not the working directory: a relative path would be resolved against it)
+		query = abs
+	}
+	pkgs, err := packages.Load(cfg, "file="+query)
 	if err != nil {
 		return nil, logger.Errorf("%v: failed to load type information: \n%w", srcPath, err)
 	}
